@@ -8,7 +8,7 @@ Local Open Scope R_scope.
 From Coq Require Import Floats.SpecFloat.
 From Flocq Require Import Core.Core IEEE754.BinarySingleNaN.
 From Cfi Require Import Glue.Sx Py.PyStr Py.PyNum Py.PyBits Py.PyDate Model.Field Model.Line.
-From Cfi Require Import Proofs.FieldProofs Proofs.NumText Proofs.LineProofs Proofs.FloatReal.
+From Cfi Require Import Proofs.FieldProofs Proofs.NumText Proofs.LineProofs Proofs.FloatSci Proofs.FloatReal Proofs.FloatRound Proofs.FloatSciReal.
 Import ListNotations.
 
 (* the model of float(str) on a fraction n/d IS IEEE-754 round-to-nearest-even to binary64 (no overflow case) ... *)
@@ -54,3 +54,88 @@ Theorem C01_stable_float_zero : forall f dd up sep s, kind f = KFloat dd false u
   stable_field f (VFloat (S754_zero s)).
 Proof. exact stable_float_zero. Qed.
 Print Assumptions C01_stable_float_zero.
+
+(* ---------------------------------------------------------------------------------------------------------------
+   Python's round() in front of format.  F notation: the code formats round(x, d); the model renders x directly, and the two
+   are the same text for every finite double and every d (and round never raises there). *)
+Theorem C01_round_absorbed_fixed : forall up s m e (d : nat) y, SpecFloat.bounded 53 1024 m e = true ->
+  py_round (S754_finite s m e) (Z.of_nat d) = Some y ->
+  fmtF up y d = fmtF up (S754_finite s m e) d.
+Proof. exact fmtF_round_absorb. Qed.
+Print Assumptions C01_round_absorbed_fixed.
+
+Theorem C01_round_fixed_never_raises : forall s m e (d : nat), SpecFloat.bounded 53 1024 m e = true ->
+  exists y, py_round (S754_finite s m e) (Z.of_nat d) = Some y.
+Proof. exact py_round_fixed_never_raises. Qed.
+Print Assumptions C01_round_fixed_never_raises.
+
+(* E notation: the model keeps round() (sci_val).  For a normal double and at most 15 significant digits it changes nothing:
+   the text is the one-step half-even rendering of x itself ... *)
+Theorem C01_round_absorbed_sci : forall up s m e dd, SpecFloat.bounded 53 1024 m e = true ->
+  (dd <= 14)%nat -> (2 ^ 52 <= Zpos m)%Z -> sci_raises (S754_finite s m e) dd = false ->
+  fmtE up (sci_val (S754_finite s m e) dd) dd = fmtE up (S754_finite s m e) dd.
+Proof. exact fmtE_round_absorb_normal. Qed.
+Print Assumptions C01_round_absorbed_sci.
+
+(* ... so the emitted decimal is within half a unit of its last digit of the value, exactly, and reads back as the double
+   nearest to it *)
+Theorem C01_float_sci_half_unit : forall f dd up sep s m e, kind f = KFloat dd true up sep ->
+  (sep = [DOT] \/ sep = [44%N]) ->
+  SpecFloat.bounded 53 1024 m e = true -> fits f (VFloat (S754_finite s m e)) = true ->
+  forall (Hdigits : (dd <= 14)%nat) (Hnormal : (2 ^ 52 <= Zpos m)%Z),
+  exists n e10, (10 ^ Z.of_nat dd <= n < 10 ^ (Z.of_nat dd + 1))%Z /\
+    float_text true (size f) dd true up sep (S754_finite s m e) = replace [DOT] sep (sci_text up s n dd e10) /\
+    (let (num, den) := scaled m e (Z.of_nat dd - e10) in (2 * Z.abs (n * den - num) <= den)%Z) /\
+    reread f (VFloat (S754_finite s m e)) = VFloat (sf_of_dec s n (e10 - Z.of_nat dd)).
+Proof. exact float_sci_half_unit_normal. Qed.
+Print Assumptions C01_float_sci_half_unit.
+
+(* below 1e308 the E-notation write never raises *)
+Theorem C01_float_sci_writes : forall s m e dd, SpecFloat.bounded 53 1024 m e = true ->
+  (magR m e < bpow radix10 308)%R -> sci_raises (S754_finite s m e) dd = false.
+Proof. exact sci_writes_below_1e308. Qed.
+Print Assumptions C01_float_sci_writes.
+
+(* TEXT STABILITY IN E NOTATION, for EVERY finite binary64 value whose text fits (subnormals, any number of digits, both
+   separators): writing what was read reproduces the identical text, and what was read is finite *)
+Theorem C01_stable_float_sci : forall f dd up sep s m e, kind f = KFloat dd true up sep ->
+  (sep = [DOT] \/ sep = [44%N]) ->
+  SpecFloat.bounded 53 1024 m e = true -> fits f (VFloat (S754_finite s m e)) = true ->
+  stable_field f (VFloat (S754_finite s m e)) /\
+  finite_value (reread f (VFloat (S754_finite s m e))) = true.
+Proof. exact stable_float_sci_faithful. Qed.
+Print Assumptions C01_stable_float_sci.
+
+(* ---------------------------------------------------------------------------------------------------------------
+   Where the property's half-unit clause FAILS on the faithful model (and on the code: the check replays these; they are the
+   recorded findings of known_findings.json).  Closed, by computation. *)
+Theorem C01_refuted_sci_half_unit_subnormal :
+  let x := S754_finite false 21 (-1074) in
+  SpecFloat.bounded 53 1024 21 (-1074) = true /\
+  sci_raises x 1 = false /\
+  fmtE true (sci_val x 1) 1 = [57; 46; 57; 69; 45; 51; 50; 51]%N /\
+  fmtE true (sci_val x 1) 1 = sci_text true false 99 1 (-323) /\
+  (2 * Z.abs (99 * 2 ^ 1074 - 21 * 10 ^ 324) > 2 ^ 1074)%Z /\
+  fits (cex_field 1 8) (VFloat x) = true.
+Proof. exact half_unit_fails_subnormal. Qed.
+Print Assumptions C01_refuted_sci_half_unit_subnormal.
+
+Theorem C01_refuted_sci_half_unit_16_digits :
+  let x := S754_finite false 5960464477539063 24 in
+  SpecFloat.bounded 53 1024 5960464477539063 24 = true /\ (2 ^ 52 <= 5960464477539063)%Z /\
+  sci_raises x 15 = false /\
+  fmtE true (sci_val x 15) 15 =
+    [57; 46; 57; 57; 57; 57; 57; 57; 57; 57; 57; 57; 57; 57; 57; 57; 57; 69; 43; 50; 50]%N /\
+  fmtE true (sci_val x 15) 15 = sci_text true false 9999999999999999 15 22 /\
+  (2 * Z.abs (9999999999999999 * 10 ^ 7 - 5960464477539063 * 2 ^ 24) > 10 ^ 7)%Z /\
+  fits (cex_field 15 21) (VFloat x) = true.
+Proof. exact half_unit_fails_16_digits. Qed.
+Print Assumptions C01_refuted_sci_half_unit_16_digits.
+
+Theorem C01_refuted_sci_write_raises :
+  let x := S754_finite false 9007199254740991 971 in
+  SpecFloat.bounded 53 1024 9007199254740991 971 = true /\
+  sci_raises x 2 = true /\ render (cex_field 2 9) (VFloat x) = None /\
+  fits (cex_field 2 9) (VFloat x) = false.
+Proof. exact write_raises_near_max. Qed.
+Print Assumptions C01_refuted_sci_write_raises.
